@@ -79,6 +79,57 @@ def map_datetimes(x: object, fn):
     return x
 
 
+# UTC instants (ms) at which the clocks of a zone change, for building DST-sensitive companions of a value
+DST_TRANSITIONS = {
+    "Europe/Paris": (1635642000000, 1616893200000),
+    "America/New_York": (1636264800000,),
+    "Australia/Lord_Howe": (1617462000000,),
+}
+_EPOCH = datetime.datetime(1970, 1, 1, tzinfo=datetime.timezone.utc)
+_MS = datetime.timedelta(milliseconds=1)
+
+
+def dst_companion(x: object):
+    """If some datetime inside entity x lies within 12 h of a known DST transition T of a zone Z:
+    -> (Z, x with all datetimes expressed in Z, the same with every such datetime mirrored to 2T - t), else None.
+    The mirror image of T - 30 min is T + 30 min: the other "fold twin" of the same wall-clock time, and the mirror of
+    T - 3 h lies on the same local day with the other UTC offset."""
+    import zoneinfo
+
+    found = []
+
+    def scan(dt):
+        ms = (dt - _EPOCH) // _MS
+        for zone, ts in DST_TRANSITIONS.items():
+            for t in ts:
+                if abs(ms - t) <= 12 * 3600 * 1000:
+                    found.append((zone, t))
+        return dt
+
+    map_datetimes(x, scan)
+    if not found:
+        return None
+    zone, t0 = found[0]
+    try:
+        tz = zoneinfo.ZoneInfo(zone)
+    except Exception:
+        return None
+
+    def rez(dt):
+        try:
+            return dt.astimezone(tz)
+        except OverflowError:  # the last hours of year 9999 cannot be expressed east of UTC
+            return dt
+
+    def mirror(dt):
+        ms = (dt - _EPOCH) // _MS
+        if abs(ms - t0) <= 12 * 3600 * 1000:
+            return (_EPOCH + (2 * t0 - ms) * _MS).astimezone(tz)
+        return rez(dt)
+
+    return zone, map_datetimes(x, rez), map_datetimes(x, mirror)
+
+
 SerialError = kerrors.SerialError
 BufferUnderflow = kerrors.BufferUnderflow
 OutOfBoundValue = kerrors.OutOfBoundValue
